@@ -34,6 +34,12 @@ def M2(id, prop, rule, edits, note="", survives="yes"):
                         edits=[dict(file=f, old=o, new=n, nth=k) for f, o, n, k in edits]))
 
 
+def MB(id, prop, rule, base, file, old, new, note="", nth=None, survives="yes"):
+    """a seeded edit made on top of the stored behaviour-preserving refactoring `base` (benign_refactors/<base>.diff)"""
+    MUTANTS.append(dict(id=id, prop=prop, rule=rule, base=base, file=file, old=old, new=new, note=note, nth=nth,
+                        survives_tests=survives))
+
+
 def B(id, props, file, old, new, note="", nth=None):
     BENIGN.append(dict(id=id, props=props, file=file, old=old, new=new, note=note, nth=nth))
 
@@ -697,3 +703,43 @@ M("m138", "C09", "R9.6", PVI, "        self.value_history = np.zeros((self.perio
 M("m139", "C04", "R4.5", RVI, "        self.gain = float(self.values[-1])\n", "        self.gain = 0.0\n",
   "gain starts at 0 whatever the initial values (the repaired defect D8 re-introduced)")
 B("b50", ["C04", "C09", "C10"], RVI, "        self.gain = float(self.values[-1])\n", "        reference_value = self.values[-1]\n        self.gain = float(reference_value)\n", "initial gain through a temporary")
+
+
+# =============================================================================== slips inside extracted collaborator objects
+# (the refactorings r4set2_2 / r4set1_2 move state and a loop into small private classes; flatten.py dissolves those, so a slip made
+# INSIDE the extracted class is a slip in the solver and must be reported by the rule that guards the original statements)
+MB("m140", "C07", ["R7.1"], "r4set2_2", PVI, "        self.index = (self.index + 1) % (period + 1)\n",
+   "        self.index = (self.index + 1) % period\n", "_ValueHistory.push: circular index modulo period instead of period + 1")
+MB("m141", "C07", ["R7.8"], "r4set2_2", PVI, "        self.rows[0] = np.array(initial_values)\n",
+   "        self.rows[1] = np.array(initial_values)\n", "_ValueHistory.__init__: initial values stored in row 1 while the index starts at 0")
+MB("m143", "C08", ["R8.3"], "r4set1_2", PI, "            if conv < self.threshold:\n", "            if conv <= self.threshold:\n",
+   "_IterativePolicyEvaluation.run: `<` -> `<=`")
+MB("m144", "C08", ["R8.5"], "r4set1_2", PI, "            conv = self.measure(new_values, values)\n",
+   "            conv = self.measure(new_values, new_values)\n", "_IterativePolicyEvaluation.run: the measure compares the sweep with itself")
+MB("m145", "C05", ["R5.2"], "r4set1_2", PI, "            max_sweeps=self.config.max_eval_iter,\n",
+   "            max_sweeps=self.config.max_eval_iter - 1,\n", "evaluation budget one short")
+# (r4set1_4 / r4set2_3 generate solver_state and the restore method from class-level field tables; specialise.py writes each class's
+# table into its copy of the generic method, so a slip in a table is a slip in that class's checkpoint payload)
+MB("m146", "C09", ["R9.1", "R9.2"], "r4set2_3", PVI, '    _info_attributes = ("value_history", "history_index", "period")\n',
+   '    _info_attributes = ("value_history", "period")\n', "PVI's declared checkpoint attributes omit history_index", survives="no (TypeError when the state is built)")
+MB("m147", "C10", ["R10.6"], "r4set1_4", VI, "            setattr(self, name, getattr(solver_state.info, name))\n",
+   "            setattr(self, name, getattr(self.solver_state.info, name))\n", "generic restore reads the solver's own state instead of the checkpoint's")
+
+# =============================================================================== the dense-grid idiom for spaces
+_prod = "    space = jnp.array(list(itertools.product(*ranges)), dtype=jnp.int32)\n"
+B("b52", ["C19", "C14", "C13", "C15", "C16", "C17"], SPACES, _prod,
+  "    space = jnp.asarray(np.indices(dimensions).reshape(len(dimensions), -1).T + mins, dtype=jnp.int32)\n",
+  "np.indices grid instead of itertools.product: same rows, same order")
+M("m148", "C19", "R19.3", SPACES, _prod,
+  "    space = jnp.asarray(np.indices(dimensions, dtype=np.uint8).reshape(len(dimensions), -1).T + mins, dtype=jnp.int32)\n",
+  "np.indices grid with uint8 offsets: a dimension wider than 256 wraps around")
+M("m149", "C19", ["R19.2", "R19.3"], SPACES, _prod,
+  "    space = jnp.asarray(np.indices(dimensions - 1).reshape(len(dimensions), -1).T + mins, dtype=jnp.int32)\n",
+  "np.indices grid one short in every dimension")
+
+# =============================================================================== R20.14 division by a possibly-zero Python number
+M("m150", "C20", "R20.14", SOLVER, "        self.gamma = jnp.array(self.config.gamma)\n", "        self.gamma = float(self.config.gamma)\n",
+  "gamma kept as a Python float: the max-diff threshold eps * (1 - gamma) / gamma raises ZeroDivisionError for gamma = 0")
+B("b53", ["C20", "C02", "C01", "C08"], SOLVER, "        self.gamma = jnp.array(self.config.gamma)\n", "        self.gamma = jnp.asarray(self.config.gamma)\n",
+  "asarray instead of array")
+
